@@ -1,0 +1,87 @@
+//! Verification seams (cargo feature `verif`, off by default).
+//!
+//! Nothing here changes behaviour unless a harness installs a scheduler, a
+//! logical clock or a random seed on the *current thread*; with nothing
+//! installed every function is a no-op / returns `None`.
+
+use std::cell::{Cell, RefCell};
+use std::sync::Arc;
+
+/// A cooperative scheduler that decides which thread runs next.
+pub trait Scheduler: Send + Sync {
+    /// Called before a synchronisation step; may park the calling thread.
+    fn point(&self, tag: &'static str);
+    /// Called before a blocking acquisition; returns once `pred()` holds and
+    /// the scheduler lets this thread run.
+    fn wait_until(&self, tag: &'static str, pred: &dyn Fn() -> bool);
+}
+
+thread_local! {
+    static SCHEDULER: RefCell<Option<Arc<dyn Scheduler>>> = const { RefCell::new(None) };
+    static CLOCK: Cell<Option<(u64, u64)>> = const { Cell::new(None) };
+    static RANDOM: Cell<Option<u64>> = const { Cell::new(None) };
+}
+
+/// Installs (or clears) the scheduler for the current thread.
+pub fn install_scheduler(scheduler: Option<Arc<dyn Scheduler>>) {
+    SCHEDULER.with(|s| *s.borrow_mut() = scheduler);
+}
+
+/// Yield point: hands control to the installed scheduler, if any.
+pub fn point(tag: &'static str) {
+    let scheduler = SCHEDULER.with(|s| s.borrow().clone());
+    if let Some(scheduler) = scheduler {
+        scheduler.point(tag);
+    }
+}
+
+/// Visible wait: blocks in the installed scheduler until `pred()` holds.
+pub fn wait_until(tag: &'static str, pred: &dyn Fn() -> bool) {
+    let scheduler = SCHEDULER.with(|s| s.borrow().clone());
+    if let Some(scheduler) = scheduler {
+        scheduler.wait_until(tag, pred);
+    }
+}
+
+/// Installs a logical millisecond clock for the current thread: the next read
+/// returns `start`, every read advances it by `step`. `None` restores the
+/// wall clock.
+pub fn set_clock(clock: Option<(u64, u64)>) {
+    CLOCK.with(|c| c.set(clock));
+}
+
+/// Reads the logical clock without advancing it.
+pub fn peek_clock() -> Option<u64> {
+    CLOCK.with(|c| c.get().map(|(now, _)| now))
+}
+
+/// Reads and advances the logical clock; `None` when no clock is installed.
+pub fn clock_ms() -> Option<u64> {
+    CLOCK.with(|c| {
+        let (now, step) = c.get()?;
+        c.set(Some((now.saturating_add(step), step)));
+        Some(now)
+    })
+}
+
+/// Seeds (or clears) the deterministic random stream of the current thread.
+pub fn set_random_seed(seed: Option<u64>) {
+    RANDOM.with(|r| r.set(seed));
+}
+
+/// Next value of the deterministic stream (splitmix64); `None` when unseeded.
+pub fn next_random_u64() -> Option<u64> {
+    RANDOM.with(|r| {
+        let state = r.get()?.wrapping_add(0x9E37_79B9_7F4A_7C15);
+        r.set(Some(state));
+        let mut z = state;
+        z = (z ^ (z >> 30)).wrapping_mul(0xBF58_476D_1CE4_E5B9);
+        z = (z ^ (z >> 27)).wrapping_mul(0x94D0_49BB_1331_11EB);
+        Some(z ^ (z >> 31))
+    })
+}
+
+/// Next value of the deterministic stream mapped into the open interval (0, 1).
+pub fn next_random_unit_f64() -> Option<f64> {
+    next_random_u64().map(|v| ((v >> 11) as f64 + 0.5) / (1u64 << 53) as f64)
+}
